@@ -37,7 +37,7 @@ def planted():
 
 
 def streams(rng, tier):
-    n = 300 if tier == "quick" else 4000
+    n = 500 if tier == "quick" else 4000
     return [("planted", planted()), ("histories", [{"prog": H.gen_program(rng, rng.randint(10, 40), MIX)} for _ in range(n)])]
 
 
